@@ -553,7 +553,7 @@ pub fn run(ctx: &mut Ctx) {
         "recent_path, svg and the per-view property lists are not judged".into(),
     ];
     let ctx = &*ctx;
-    ctx.cases("path_api", ctx.n(300, 15000), 0, path_api_case);
-    ctx.cases("on_demand_api", ctx.n(150, 6000), 0, on_demand_case);
-    ctx.cases("explorer_http", ctx.n(12, 400), 6, explorer_case);
+    ctx.cases("path_api", ctx.n(1500, 25000), 0, path_api_case);
+    ctx.cases("on_demand_api", ctx.n(500, 8000), 0, on_demand_case);
+    ctx.cases("explorer_http", ctx.n(24, 500), 6, explorer_case);
 }
